@@ -38,7 +38,7 @@ EntShapeOK(e, k) ==
   LET vs == Pts(e, e.ents[k]) IN
   IF e.dom = "cells" THEN Len(vs) = NNodesOf(e.kind) /\ CellShapeOK(e.kind, vs)
   ELSE /\ Len(vs) = (CASE e.kind = "line" -> 1 [] e.kind \in {"tri", "quad"} -> 2 [] e.kind = "tet" -> 3 [] OTHER -> 4)
-       /\ FacetShapeOK(vs)
+       /\ FacetPlanarConvex(vs)
        /\ \A s \in DOMAIN FacetSimplices(vs) : SimplexJacSq(FacetSimplices(vs)[s]) > 0
 GeometryWF(e) ==
   /\ e.kind \in {"line", "tri", "quad", "tet", "hex", "wedge"} /\ e.scale \in {1, 2, 4}
@@ -55,8 +55,16 @@ FacetsRational(e) ==
 \* the entities the basis reports (tind / find) are the requested ones, as multisets (both lists arrive sorted)
 RegionAsRequested(e) == e.gids = e.rids
 \* extra quadrature degree needed because the Jacobian of a non-affine cell is not constant
-ExtraDegree(e) == IF e.dom = "cells" /\ e.kind = "quad" /\ \E k \in DOMAIN e.ents : ~IsParallelogram(Pts(e, e.ents[k]))
+\* (cells: bilinear quadrilaterals; facets: flat quadrilateral faces that are not parallelograms -- their surface
+\* Jacobian is linear in each direction)
+ExtraDegree(e) == IF \/ e.dom = "cells" /\ e.kind = "quad" /\ \E k \in DOMAIN e.ents : ~IsParallelogram(Pts(e, e.ents[k]))
+                     \/ e.dom = "facets" /\ \E k \in DOMAIN e.ents : Len(e.ents[k]) = 4 /\ ~IsParallelogram(Pts(e, e.ents[k]))
                   THEN 1 ELSE 0
+\* A facet as a union of simplices with parallel Jacobian vectors c_s = g_s * n0 (n0 primitive, g_s > 0):
+\* measure-weighted integrals are sqrt(|n0|^2) * sum_s g_s N_s / (q + k)!
+FacetDir(S)  == LET c == SimplexJacVec(S[1]) g == VGcd(c) IN [i \in DOMAIN c |-> c[i] \div g]
+FacetGs(S)   == [s \in DOMAIN S |-> VGcd(SimplexJacVec(S[s]))]
+FacetDirOK(S) == \A s \in DOMAIN S : SimplexJacVec(S[s]) = VScale(FacetGs(S)[s], FacetDir(S))
 IntegrateWF(e) ==
   /\ GeometryWF(e)
   /\ Len(e.alpha) = MeshDim(e.kind) /\ \A c \in DOMAIN e.alpha : e.alpha[c] \in 0..8
@@ -66,9 +74,12 @@ IntegrateWF(e) ==
   /\ e.oracle = "sq" => /\ e.dom = "facets" /\ e.scale ^ (2 * (MDeg(e.alpha) + EntDim(e))) <= 65536
                          \* bounds that keep the per-facet square oracle 32-bit safe
                          /\ \A k \in DOMAIN e.ents :
-                              LET S == FacetSimplices(Pts(e, e.ents[k])) J2 == SimplexJacSq(S[1]) IN
-                              /\ J2 <= 32768 /\ \A s \in DOMAIN S : SimplexJacSq(S[s]) = J2
-                              /\ IPow(Max2(MaxAbsCoord(e.p), 1), 2 * MDeg(e.alpha)) * J2 <= 16777216
+                              LET S  == FacetSimplices(Pts(e, e.ents[k]))
+                                  n0 == FacetDir(S)
+                                  J2 == VDot(n0, n0)
+                                  G  == SumSeq(FacetGs(S)) IN
+                              /\ FacetDirOK(S) /\ J2 <= 32768 /\ G <= 1024
+                              /\ IPow(Max2(MaxAbsCoord(e.p), 1), 2 * MDeg(e.alpha)) * G * G * J2 <= 16777216
   /\ IPow(Max2(MaxAbsCoord(e.p), 1), MDeg(e.alpha) + MeshDim(e.kind)) < 1073741824 \div 64
   /\ e.oracle \in {"cells", "sq"} => MDeg(e.alpha) + EntDim(e) <= 8
   /\ e.scale ^ (MDeg(e.alpha) + EntDim(e)) <= 65536
@@ -109,12 +120,14 @@ IntegrateVerdicts(e) ==
               ELSE Unscale(FxSumAll(ints), e.scale, n)
       mag(jac) == 1 + (jac * Mq) \div den
   IN IF e.oracle = "sq"
-     THEN \* facets with irrational measure sqrt(J2): per facet, value^2 = J2 * (N / ((q+k)! scale^(q+k)))^2 and the sign of N
+     THEN \* facets of measure proportional to sqrt(J2), J2 = |n0|^2: per facet, value^2 = J2 * (N / ((q+k)! scale^(q+k)))^2, sign of N
           (IF e.evals = <<>> THEN <<>> ELSE
            [ElementalExact |-> \A k \in 1..ne :
               LET S    == EntSimplices(e, k)
-                  J2   == SimplexJacSq(S[1])
-                  Nn   == ISumAll([s \in DOMAIN S |-> SimplexMonoSum(S[s], e.alpha)])
+                  n0   == FacetDir(S)
+                  J2   == VDot(n0, n0)
+                  gs   == FacetGs(S)
+                  Nn   == ISumAll([s \in DOMAIN S |-> gs[s] * SimplexMonoSum(S[s], e.alpha)])
                   r    == Unscale(FxRat(Nn, Fact(n)), e.scale, n)
                   w2   == FxMulSmall(FxSq(r), J2)
                   g2   == FxSq(e.evals[k])
@@ -193,6 +206,85 @@ EntriesExact(e) ==
           FxNear(SubSeq(e.vals[r], 3, 2 + NL), exact(e.vals[r][1], e.vals[r][2]), TolEntries)
 
 \* ---------------------------------------------------------------------------
+\* EntriesT: mass matrix / load vector of the tensor-product Lagrange elements Q1, Q2 (quadrilaterals) and Q1
+\* (hexahedra) on straight-sided NON-AFFINE cells, assembled with the element's DEFAULT integration order.
+\* The integrand  phi_i phi_j det DF  is a polynomial of degree <= 2 deg + (d - 1) <= 5 per reference direction; the
+\* specification integrates it exactly with its own rule -- Boole's rule on the dyadic nodes k/4 (weights 7, 32, 12, 32,
+\* 7 over 90, exact to degree 5; checked in MC_C02) tensorised -- applied to its own multilinear map of the cell and its
+\* own Lagrange polynomials.  Everything at the nodes is a dyadic number, so the sums are exact in limb arithmetic; the
+\* only rounding is the final division by 90^d.
+BooleW == <<7, 32, 12, 32, 7>>
+RefVertsT(kind) == IF kind = "quad" THEN << <<0, 0>>, <<1, 0>>, <<1, 1>>, <<0, 1>> >>
+                   ELSE << <<1,1,1>>, <<1,1,0>>, <<1,0,1>>, <<0,1,1>>, <<1,0,0>>, <<0,1,0>>, <<0,0,1>>, <<0,0,0>> >>
+\* 1-D Lagrange polynomial of degree deg at node/deg, evaluated at k/4, times 4^deg
+Lag1(deg, node, k) ==
+  IF deg = 1 THEN (IF node = 0 THEN 4 - k ELSE k)
+  ELSE CASE node = 0 -> (2 * k - 4) * (k - 4) [] node = 1 -> 4 * k * (4 - k) [] node = 2 -> k * (2 * k - 4)
+LagScale(deg) == IF deg = 1 THEN 4 ELSE 16
+RECURSIVE IProdRun(_, _, _)
+IProdRun(f, i, n) == IF i > n THEN 1 ELSE f[i] * IProdRun(f, i + 1, n)
+PhiAt(deg, lnode, pt) == IProdRun([c \in DOMAIN pt |-> Lag1(deg, lnode[c], pt[c])], 1, Len(pt))   \* times LagScale^d
+\* Jacobian of the multilinear map of the cell with vertices vs at the node pt, times 4^(d-1); rows = components of F
+JacAt(kind, vs, pt) ==
+  LET d == Len(pt) rv == RefVertsT(kind) IN
+  [a \in 1..d |-> [c \in 1..d |->
+     ISumAll([v \in DOMAIN rv |->
+        vs[v][a] * (IF rv[v][c] = 1 THEN 1 ELSE -1)
+                 * IProdRun([c2 \in 1..d |-> IF c2 = c THEN 1 ELSE Lag1(1, rv[v][c2], pt[c2])], 1, d)])]]
+DetAt(kind, vs, pt) == LET J == JacAt(kind, vs, pt) IN
+                       IF Len(pt) = 2 THEN Det2(J[1], J[2]) ELSE Det3(J[1], J[2], J[3])       \* times 4^(d(d-1))
+NodesT(d) == SetToSeq([1..d -> 0..4])
+
+EntriesTWF(e) ==
+  LET d == MeshDim(e.kind) IN
+  /\ e.kind \in {"quad", "hex"} /\ e.scale = 1 /\ e.deg \in 1..2 /\ (e.kind = "hex" => e.deg = 1)
+  /\ e.form \in {"mass", "load"} /\ e.N \in 1..80
+  /\ \A v \in DOMAIN e.p : Len(e.p[v]) = d /\ \A c \in DOMAIN e.p[v] : e.p[v][c] \in -8..8
+  /\ Len(e.ents) >= 1 /\ Len(e.edofs) = Len(e.ents)
+  /\ \A k \in DOMAIN e.ents : Len(e.ents[k]) = NNodesOf(e.kind) /\ \A i \in DOMAIN e.ents[k] : e.ents[k][i] \in DOMAIN e.p
+  /\ \A k \in DOMAIN e.edofs : Len(e.edofs[k]) = Len(e.lnodes) /\ \A i \in DOMAIN e.edofs[k] : e.edofs[k][i] \in 1..e.N
+  /\ {e.lnodes[i] : i \in DOMAIN e.lnodes} = [1..d -> 0..e.deg] /\ Len(e.lnodes) = (e.deg + 1) ^ d
+  \* valid cells: the Jacobian determinant has one sign at all 5^d nodes (corners included) and is moderate
+  /\ \A k \in DOMAIN e.ents : LET vs == Pts(e, e.ents[k]) ns == NodesT(d) IN
+        /\ SameSign({DetAt(e.kind, vs, ns[q]) : q \in DOMAIN ns})
+        /\ \A q \in DOMAIN ns : Abs(DetAt(e.kind, vs, ns[q])) <= 1024 * 4 ^ (d * (d - 1))
+  /\ \A r \in DOMAIN e.vals : Len(e.vals[r]) = 2 + NL /\ FxWF(SubSeq(e.vals[r], 3, 2 + NL))
+  /\ IF e.form = "load"
+     THEN {<<e.vals[r][1], e.vals[r][2]>> : r \in DOMAIN e.vals} = (1..e.N) \X {0} /\ Len(e.vals) = e.N
+     ELSE {<<e.vals[r][1], e.vals[r][2]>> : r \in DOMAIN e.vals} = (1..e.N) \X (1..e.N) /\ Len(e.vals) = e.N * e.N
+
+EntriesTExact(e) ==
+  LET d    == MeshDim(e.kind)
+      nl   == Len(e.lnodes)
+      ne   == Len(e.ents)
+      ns   == NodesT(d)
+      nq   == Len(ns)
+      S    == LagScale(e.deg) ^ d
+      \* phi_i at the nodes, as exact dyadic numbers (|.| <= 1.. a few)
+      tphi == Materialize([i \in 1..nl |-> Materialize([q \in 1..nq |->
+                 FxDivSmall(FxInt(PhiAt(e.deg, e.lnodes[i], ns[q])), S)], nq)], nl)
+      wq   == Materialize([q \in 1..nq |-> IProdRun([c \in 1..d |-> BooleW[ns[q][c] + 1]], 1, d)], nq)
+      \* |det DF| at the nodes (exact dyadic)
+      dets == Materialize([k \in 1..ne |-> Materialize([q \in 1..nq |->
+                 FxRat(Abs(DetAt(e.kind, Pts(e, e.ents[k]), ns[q])), 4 ^ (d * (d - 1)))], nq)], ne)
+      div90(x) == IF d = 2 THEN FxDivSmall(FxDivSmall(x, 90), 90) ELSE FxDivSmall(FxDivSmall(FxDivSmall(x, 90), 90), 90)
+      lmass(k, i, j) == div90(FxSumAll([q \in 1..nq |->
+                           FxMulSmall(FxMul(FxMul(tphi[i][q], tphi[j][q]), dets[k][q]), wq[q])]))
+      lload(k, i)    == div90(FxSumAll([q \in 1..nq |-> FxMulSmall(FxMul(tphi[i][q], dets[k][q]), wq[q])]))
+      \* local matrices once per cell (symmetric: computed for i <= j)
+      loc  == Materialize([k \in 1..ne |-> Materialize([i \in 1..nl |->
+                 IF e.form = "load" THEN lload(k, i)
+                 ELSE Materialize([j \in 1..nl |-> IF j >= i THEN lmass(k, i, j) ELSE <<>>], nl)], nl)], ne)
+      local(k, i, j) == IF e.form = "load" THEN loc[k][i] ELSE loc[k][Min2(i, j)][Max2(i, j)]
+      locs == Materialize([k \in 1..ne |-> Materialize([I \in 1..e.N |-> {i \in 1..nl : e.edofs[k][i] = I}], e.N)], ne)
+      exact(I, J) ==
+        LET hs == SetToSeq(UNION {{<<k, i, j>> : i \in locs[k][I], j \in (IF J = 0 THEN {1} ELSE locs[k][J])} : k \in 1..ne})
+        IN FxSumAll([h \in DOMAIN hs |-> local(hs[h][1], hs[h][2], hs[h][3])])
+  IN /\ Len(tphi) = nl /\ Len(wq) = nq /\ Len(dets) = ne /\ Len(loc) = ne /\ Len(locs) = ne
+     /\ \A r \in DOMAIN e.vals :
+          FxNear(SubSeq(e.vals[r], 3, 2 + NL), exact(e.vals[r][1], e.vals[r][2]), TolEntries)
+
+\* ---------------------------------------------------------------------------
 \* the same scalar under renumbering / rigid motion / refinement (law between two recorded numbers)
 SameScalar(e, carried) ==
   FxNear(FxMulSmall(e.val, e.sgn), carried.val, TolScaled(TolSum, 16 * Max2(carried.mag, 1)))
@@ -204,10 +296,11 @@ Carry(e) == IF e.err = "" /\ e.a \in {"Integrate", "MassSum"}
             ELSE <<>>
 
 C02WellFormed(e) ==
-  /\ e.a \in {"Integrate", "MassSum", "Entries"}
+  /\ e.a \in {"Integrate", "MassSum", "Entries", "EntriesT"}
   /\ e.err = "" => CASE e.a = "Integrate" -> IntegrateWF(e)
                      [] e.a = "MassSum"   -> MassSumWF(e)
                      [] e.a = "Entries"   -> EntriesWF(e)
+                     [] e.a = "EntriesT"  -> EntriesTWF(e)
 
 C02Clauses(e, carried) ==
   IF ~C02WellFormed(e) THEN [WellFormed |-> FALSE]
@@ -217,7 +310,8 @@ C02Clauses(e, carried) ==
        (CASE e.a = "Integrate" ->
                IntegrateVerdicts(e)
           [] e.a = "MassSum" -> [MassSumsToMeasure |-> MassSumsToMeasure(e)]
-          [] e.a = "Entries" -> [EntriesExact |-> EntriesExact(e)]) @@
-       (IF e.pos > 1 /\ carried # <<>> /\ e.rel \in {"numbering", "motion", "refine"} /\ e.a # "Entries"
+          [] e.a = "Entries" -> [EntriesExact |-> EntriesExact(e)]
+          [] e.a = "EntriesT" -> [EntriesExact |-> EntriesTExact(e)]) @@
+       (IF e.pos > 1 /\ carried # <<>> /\ e.rel \in {"numbering", "motion", "refine"} /\ e.a \notin {"Entries", "EntriesT"}
         THEN (LawName(e.rel) :> SameScalar(e, carried)) ELSE <<>>)
 ==============================================================================
